@@ -78,6 +78,13 @@ marker_type!(Z0);
 marker_type!(Z1);
 marker_type!(Z2);
 
+/// A float-valued state (conditions over float lenses: NaN and infinite values are values, too).
+#[derive(Clone, Default, Debug, Deref, DerefMut, Serialize, Tid, PartialEq)]
+pub struct F0(pub f64);
+impl CustomState<'_> for F0 {}
+/// Model tag of `F0` (value: the bits of the float).
+pub const TAG_F0: u8 = 15;
+
 pub trait ProbeIdx {
     const IDX: u8;
 }
